@@ -8,7 +8,8 @@ MANIFEST = {
             "(both signs: exactly the values start + step*i lying before end in the direction of the step), C04_values_in_bounds, C04_termination (fuel adequacy), "
             "C04_omitted_defaults (omitted start = 0, omitted step = 1 in every context), C04_same_in_all_contexts_partial, C04_bounds_evaluated_once. "
             "PARTIAL: the full statement (step != 0) is false on the current tree - C04_full_statement_false / C04_neg_step_counterexample (10:0:-1: loop yields "
-            "nothing, iterator yields 10..1) and C04_neg_step_diverges; recorded as known finding neg-step-forstmt and replayed on the compiled program every run.",
+            "nothing, iterator yields 10..1) and C04_neg_step_diverges; recorded as known finding neg-step-forstmt and replayed on the compiled program every run. "
+            "Second recorded finding mutated-bound-ident: identifier end/step operands are re-read on every iteration when the body assigns them (all other operand forms are captured once).",
     "note": "trusted: Lean kernel; the translator target rangeloop (reads the ForStmt literal returned by toForStmt and compileRangeExpr's defaults); the iterator "
             "is transcribed by hand from the module cache (qiniu/x/xgo/range.go) and, like gogen's lowering of for-range over an enumerator, validated only by "
             "the differential run; unbounded integers (no int64 overflow, justified for |values| < 2^62 by C04_values_in_bounds); bodies that assign to the loop "
@@ -20,7 +21,10 @@ MANIFEST = {
 RULE = ("one generated XGo program per run: 21 fixed + N random probes (start,end in [-12,12], step in [-6,6] or |step|>span, 4% step 0; each bound written as "
         "literal / negated literal / variable / constant / pure call / stateful call / arithmetic / omitted) and an exhaustive grid |start|,|end| <= G, 0<|step| <= K "
         "(quick G=8,K=6; thorough G=12,K=12) with variable bounds, expression bounds and omitted parts; every probe runs in for-in (in / <-), for-range (:=), "
-        "for-range (=), for range (count only), for-in with condition, and a list comprehension; a case = (context, bound kinds, start, end, step); "
+        "for-range (=), for range (count only), for-in with condition, and a list comprehension; operand forms also include negated identifier (-k with k<0), "
+        "-(-2), -pv(-2), (v), selector q.n, index a[1] (sign of the value independent of the syntactic sign), grid styles gs:ge:-gn and gq.s:gq.e:gq.k; "
+        "40 (thorough 300) mutation probes whose body (and the comprehension's element function) changes the variable/field/element behind the end/step operand, "
+        "per operand form (ident, paren, arith, selector, index, call, negated ident); a case = (context, bound kinds, start, end, step); "
         "non-trivial = non-empty sequence or negative step")
 
 
@@ -37,7 +41,7 @@ def post(ctx, outdir, dis):
 def run(ctx):
     ctx.assumptions += [
         "no int overflow: |start|,|end|,|step| < 2^62 (model integers are unbounded)",
-        "the loop body assigns neither the loop variable nor a variable used as end/step",
+        "the loop body does not assign the loop variable; a body assigning a plain-identifier end/step is the recorded finding mutated-bound-ident (the theorems' forLoop reads constant bounds; Bound.simple)",
         "step != 0 (step 0: the iterator panics with a division by zero, the emitted loop never ends; modelled and compared, outside the property)",
     ]
     common.standard(ctx, "GopModel.Props.C04", "c04", 200, 1500, RULE,
